@@ -9,6 +9,7 @@ scalar occurs) an arbitrary scalar record `S : SOps R`.
 import TFVerif.Proofs.Encoder
 import TFVerif.Proofs.EncoderC12
 import TFVerif.Proofs.Lazy
+import TFVerif.Proofs.EncoderLM
 import TFVerif.Gen.Encoder
 
 namespace TFVerif.C12
@@ -342,5 +343,39 @@ open TFVerif.Lazy in
 example : ((construct (fun vs => some vs) [(.outChannels, some 2), (.statsList, none), (.stype, some 1)]).bind
     fun m => (setattrs (fun vs => some vs) m [(.postModule, some 3), (.statsList, none)]).map call)
     = some (none : Option (List (Option Nat))) := by decide
+
+/-! ## keys for stypes the data has no column of; user-model encoders (`LinearModelEncoder`) -/
+
+/-- the pairing checks of `StypeWiseFeatureEncoder.__init__` apply to EVERY key of the encoder dictionary — also
+    to a stype the dataset has no column of: an unsupported pairing or a child-stype key is rejected whether or
+    not columns of that stype exist; only the NA-strategy validation (which needs statistics) is skipped for an
+    absent stype, and for a present stype the check is exactly `wiseOk` -/
+theorem absent_stype_keys_are_validated (c : EncClass) (st : Stype) (na : Option NA) :
+    wiseKeyOk c st na true = wiseOk c st na ∧
+    wiseKeyOk c st na false = (st.parent == st && (supported c).contains st) ∧
+    ((supported c).contains st = false → ∀ h, wiseKeyOk c st na h = false) ∧
+    ((st.parent == st) = false → ∀ h, wiseKeyOk c st na h = false) :=
+  ⟨wiseKeyOk_present c st na, wiseKeyOk_absent c st na,
+   fun hs h => wiseKeyOk_unsupported c st na h hs, fun hp h => wiseKeyOk_child c st na h hp⟩
+
+example : wiseKeyOk .linear .timestamp none false = false ∧ wiseKeyOk .linear .numerical none false = true := by
+  decide
+
+/-- the stype-wise forward generalised to user-model encoders is the built-in forward on built-in encoders
+    (so every theorem above about `wiseForward` is a theorem about the generalised pipeline) -/
+theorem generalised_forward_is_builtin {R : Type} (S : SOps R) (names : List (Stype × List String))
+    (encs : List (Stype × Encoder R)) (tf : List (Enc.Group R)) :
+    wiseForwardG S { colNames := names, encoders := encs.map fun p => (p.1, AnyEncoder.builtin p.2) } tf
+      = wiseForward S { colNames := names, encoders := encs } tf :=
+  wiseForwardG_builtin S names encs tf
+
+/-- `LinearModelEncoder` looks its per-column model, weight and bias up BY NAME: the insertion order of the
+    user's `col_to_model_cfg` dictionary (any permutation of distinctly named entries) does not change the
+    output, whose column axis therefore follows the frame's column names -/
+theorem linear_model_dict_order_irrelevant {R : Type} (S : SOps R) (e : LMEncoder R) (cols' : List (LMCol R))
+    (h : e.cols.Perm cols') (hn : (e.cols.map (·.name)).Nodup)
+    (rows cols : Nat) (colNames : List String) (feat : Feat R) :
+    lmForward S { e with cols := cols' } rows cols colNames feat = lmForward S e rows cols colNames feat :=
+  lmForward_dict_order S e cols' h hn rows cols colNames feat
 
 end TFVerif.C12
